@@ -757,6 +757,11 @@ class Interp:
                 kws = {"**": self.deref(st, rest_kw[0].v)}
             return self.call_repo(st, fr, f.finfo, f.selfv, pos, kws)
         if isinstance(f, FuncV) and f.node is not None:
+            hook = getattr(self.theory, "closure_contract", None)
+            if hook is not None:
+                r = hook(st, fr, f, pos, kws)
+                if r is not None:
+                    return r
             return self.call_closure(st, fr, f, pos, kws)
         if isinstance(f, ClassV):
             return self.construct(st, fr, f, pos, kws, node)
